@@ -155,11 +155,16 @@ def run_ambient(case):
     """C09: one query evaluated under each ambient mode; outcome must not depend on it"""
     kind, quant = case['pred'], case['quant']
     res = {}
-    for amb in ('none', 'query', 'rule'):
+    for amb in ('none', 'query', 'rule', 'query_q', 'rule_q'):
         clear_registry()
         objs = [M(a) for a in case['values']]
         q = build_query(case, objs)
-        cm = {'none': None, 'query': symbolic_mode, 'rule': rule_mode}[amb]
+        if amb.endswith('_q'):
+            # a block opened FOR ANOTHER QUERY: besides the mode, that query's expression is on the expression stack
+            with symbolic_mode():
+                other = an(entity(let(M, domain=objs)))
+        cm = {'none': None, 'query': symbolic_mode, 'rule': rule_mode, 'query_q': lambda: symbolic_mode(other),
+              'rule_q': lambda: rule_mode(other)}[amb]
         try:
             if cm:
                 with cm():
